@@ -842,3 +842,87 @@ def charref_eof_resolution(ctx, rule, which):
                 bad = "nothing was read after '&' but %s is performed" % resolve
     want = {"Named", "BogusName", "Numeric", "NoDigits", "Octothorpe", "Begin"}
     ctx.ob(rule, "charref-end-of-input/%s" % which, bad is None and want <= seen, bad or "Named -> looked up; BogusName -> handed back; digits -> converted; no digits / '#' -> handed back", "%s char_ref end_of_file" % which)
+
+
+def hex_marker_conserved(ctx, rule, which):
+    """'&#x' / '&#X' without digits is not a reference: the characters are given back exactly as they were read.  The character
+    consumed after '#' is therefore remembered as read (not re-created from the numeric base), and the text pushed back is '#'
+    followed by that character"""
+    T = ctx.tables(which)
+    cr = T.get("charref") or {}
+    rows = cr.get("do_octothorpe")
+    back = cr.get("unconsume_numeric")
+    if not rows or not back:
+        raise AnchorMissing("do_octothorpe / unconsume_numeric not tabulated (%s)" % which)
+    bad = None
+    fields = set()
+    n = 0
+    for pc in rows:
+        acts = [(a, tuple(str(x) for x in args)) for a, args in pc["actions"]]
+        names = [a for a, _ in acts]
+        consumed = any(a.endswith("discard_char") or a.endswith("get_char") or a.endswith(".next") for a in names)
+        rec = [(a[len("assign self."):], args[0]) for a, args in acts if a.startswith("assign self.") and args and "«c»" in args[0] and not a.endswith(".state")]
+        if consumed:
+            n += 1
+            if not rec:
+                bad = "a character after '&#' is consumed (%s) without being remembered as read: '&#X' without digits cannot be given back with its own 'X'" % [a for a in names if "char" in a][:1]
+            fields |= {f for f, _ in rec}
+    if len(fields) == 1:
+        f = sorted(fields)[0]
+        for pc in rows:
+            acts = [(a, tuple(str(x) for x in args)) for a, args in pc["actions"]]
+            consumed = any(a.endswith("discard_char") for a, _ in acts)
+            if not consumed and acts and not any(a == "assign self." + f and args == ("None",) for a, args in acts):
+                bad = bad or "a path that consumes nothing after '#' leaves self.%s as it was" % f
+        k = 0
+        for pc in back:
+            txt = " ".join("%s(%s)" % (a, ",".join(str(x) for x in args)) for a, args in pc["actions"])
+            has = [v for g, v in pc["guards"].items() if re.match(r"self\.%s matches Some\(_\)" % re.escape(f), g)]
+            if "'#'" not in txt and '"#"' not in txt:
+                bad = bad or "the text pushed back does not start with '#'"
+            if has and has[-1]:
+                k += 1
+                if not re.search(r"push_char\(self\.%s\.0\)" % re.escape(f), txt):
+                    bad = bad or "with a marker character remembered, the text pushed back is not '#' + that character (%s)" % txt[:80]
+            elif re.search(r"push_char|push_slice|\"#x\"|\"#X\"", txt):
+                bad = bad or "without a marker character something is appended to '#' (%s)" % txt[:80]
+        if k < 1:
+            bad = bad or "unconsume_numeric never gives the remembered marker character back"
+    elif bad is None:
+        bad = "the consumed marker character is remembered in %s" % (sorted(fields) or "no field")
+    ctx.ob(rule, "hex-marker-given-back-as-read/%s" % which, bad is None and n >= 2, bad or "x / X remembered as read in self.%s and pushed back after '#'" % sorted(fields)[0], "%s char_ref do_octothorpe / unconsume_numeric" % which)
+
+
+def driver_feeds_until_done(ctx, rule, area, fn, what):
+    """the driver's process(): the chunk is queued, then the tokenizer is fed again and again until it no longer answers with a
+    suspension (Script / EncodingIndicator): after a suspension the rest of the chunk is still in the queue, and nothing else
+    would ever feed it (finish() only calls end())"""
+    from . import nfq
+    key, pcs = nfq.cells(ctx, area, fn)
+    bad = None
+    n = 0
+    for pc in nfq.feasible(pcs):
+        acts = [(a, tuple(str(x) for x in args)) for a, args in pc["actions"]]
+        names = [a for a, _ in acts]
+        if not any(a.endswith(".feed") for a in names):
+            continue
+        n += 1
+        res = [(g, v) for g, v in pc["guards"].items() if re.search(r"\.feed\(.*\) matches ", g)]
+        ends = [args for a, args in acts if a == "loop-end"]
+        if not res:
+            bad = "%s feeds the tokenizer once and does not look at the answer: after a suspension (</script>) the rest of the chunk stays in the queue - it is parsed with the next chunk, or never" % what
+            continue
+        suspended = None
+        for g, v in res:
+            alts = set(re.sub(r"#\d+$", "", g).split(" matches ", 1)[1].split("|"))
+            if alts <= {"Script(_)", "EncodingIndicator(_)"}:
+                suspended = v if suspended is None else (suspended or v)
+            elif alts == {"Done"}:
+                suspended = (not v) if suspended is None else suspended
+        if suspended is None:
+            bad = "%s: feed's answer is tested for %s, which does not tell a suspension from completion" % (what, res[0][0][-40:])
+        elif suspended and (not ends or ends[-1][0] not in ("end", "continue")):
+            bad = "%s returns although the tokenizer reported a suspension: the rest of the chunk is left in the queue" % what
+        elif not suspended and ends and ends[-1][0] in ("end", "continue"):
+            bad = "%s feeds again although the tokenizer is done" % what
+    ctx.ob(rule, "driver-feeds-until-done/%s" % what, bad is None and n >= 2, bad or "%d paths: feed again after a suspension, stop on Done" % n, what)
